@@ -1,4 +1,5 @@
 pub mod c01;
+pub mod c02;
 pub mod c03;
 pub mod c04;
 pub mod c05;
@@ -12,6 +13,7 @@ use crate::report::Tier;
 pub fn dispatch(prop: &str, tier: Tier) -> i32 {
     match prop {
         "C01" => c01::run(tier),
+        "C02" => c02::run(tier),
         "C03" => c03::run(tier),
         "C04" => c04::run(tier),
         "C05" => c05::run(tier),
